@@ -19,6 +19,8 @@ import (
 	"errors"
 	"runtime"
 	"sync"
+
+	"github.com/bufbuild/buf/private/pkg/verifhook"
 )
 
 var (
@@ -70,11 +72,14 @@ func Parallelize(ctx context.Context, jobs []func(context.Context) error, option
 		defer cancel()
 	}
 	semaphoreC := make(chan struct{}, Parallelism()*multiplier)
+	verifCall := verifhook.Token()
+	verifhook.At("thread.begin", verifCall, len(jobs), cap(semaphoreC), parallelizeOptions.cancelOnFailure)
 	var errs []error
 	var lock sync.Mutex
 	addError := func(err error) {
 		lock.Lock()
 		errs = append(errs, err)
+		verifhook.At("thread.adderror", verifCall, len(errs))
 		lock.Unlock()
 	}
 	var wg sync.WaitGroup
@@ -101,13 +106,18 @@ func Parallelize(ctx context.Context, jobs []func(context.Context) error, option
 			default:
 				job := job
 				wg.Add(1)
+				verifJob := verifhook.Token()
+				verifhook.At("thread.dispatch", verifCall, verifJob)
 				go func() {
+					verifhook.At("thread.start", verifCall, verifJob)
 					if err := job(ctx); err != nil {
+						verifhook.At("thread.fail", verifCall, verifJob)
 						addError(err)
 						if cancel != nil {
 							cancel()
 						}
 					}
+					verifhook.At("thread.finish", verifCall, verifJob)
 					// This will never block.
 					<-semaphoreC
 					wg.Done()
@@ -116,6 +126,7 @@ func Parallelize(ctx context.Context, jobs []func(context.Context) error, option
 		}
 	}
 	wg.Wait()
+	verifhook.At("thread.return", verifCall, len(errs))
 	switch len(errs) {
 	case 0:
 		return nil
